@@ -222,6 +222,21 @@ def rule_cases():
     add('clean:pivot-subquery', 'SELECT * FROM (SELECT s, t, sum(i) AS x FROM #m GROUP BY 1, 2 PIVOT BY 1, 2)')
     add('clean:pivot-subquery', 'SELECT i FROM #m WHERE i IN (SELECT s, t, sum(i) AS x FROM #m GROUP BY 1, 2 PIVOT BY 1, 2)')
     add('clean:pivot-subquery', 'SELECT i NOT IN (SELECT s, t, sum(i) FROM #m GROUP BY s, t PIVOT BY s, t) FROM #m')
+    # constant expressions are folded while compiling: whatever their value, the statement is accepted or rejected cleanly
+    for e in ('2000-01-01 - 1000000000000000000', '2000-01-01 + 1000000000000000000', '1000000000000000000 + 2000-01-01',
+              '2000-01-01 + 10000000', '0001-01-01 - 1', '9999-12-31 + 1', 'date_add(2000-01-01, 1000000000000000000)',
+              'date_add(9999-12-31, 1)', "2000-01-01 + interval('1000000000000000000 days')", "9999-12-31 + interval('1 year')",
+              "0001-01-01 - interval('1 day')", "date_bin('1 day', 2000-01-01, 9999-12-31)", "date_trunc('week', 0001-01-01)",
+              "date_trunc('decade', 0001-01-01)", 'int(1000000000000000000000.5) % 7', "decimal('1e999999999') * decimal('1e999999999')",
+              "decimal('1e999999999') / decimal('1e-999999999')", "round(decimal('1e999'), 2)", "round(1.5, 1000000000)",
+              "substr('abc', 1000000000000000000000, 2)", "maxwidth('abc', 1000000000000000000000)", "date(1000000000000000000, 1, 1)",
+              "year(2000-01-01) * 1000000000000000000000 * 1000000000000000000000", "date_diff(9999-12-31, 0001-01-01)",
+              "date_part('year', 9999-12-31) + 1", "safediv(1, 0)", "safediv(decimal('1e999999999'), decimal('1e-999999999'))",
+              "'a' ~ '('", "'a' !~ '*'", "grep('(', 'a')", "grepn('(a', 'a', 1)", "subst('[', 'x', 'a')", "parse_date('x')",
+              "parse_date('2020', '%')", "date_bin('0 days', 2020-01-01, 2020-01-01)", "splitcomp('a:b', ':', 5)", "root('a:b', -1)",
+              "1 / 0.0", "1 % 0", "-decimal('NaN')", "abs(decimal('-Infinity'))", "decimal('NaN') < 1", "decimal('sNaN') + 1"):
+        add('clean:constant-folding', f'SELECT {e} AS x FROM #m')
+        add('clean:constant-folding', f'SELECT i FROM #m WHERE {e} IS NULL')
     add('clean:nested-subquery', 'SELECT a FROM (SELECT i AS a FROM #m) WHERE a IN (SELECT w FROM (SELECT w FROM #u))')
     add('open-after-close', 'SELECT i FROM OPEN ON 2020-02-01 CLOSE ON 2020-01-01')
     add('open-after-close', 'SELECT i FROM b OPEN ON 2020-02-01 CLOSE ON 2020-01-31 CLEAR')
